@@ -434,6 +434,12 @@ class Repo(object):
             objflat.inline_category_constants(tree)
             objflat.inline_bases(tree, lambda name, tree=tree, rel=rel: self._class_named(tree, rel, name))
             objflat.unfuse_factories(tree, lambda name, tree=tree, rel=rel: self._class_named(tree, rel, name))
+            if rel == 'depccg/printer/jigg_xml.py':
+                # the per-sentence part of the Jigg writer (one converter, the loop over the n-best trees) and the token
+                # elements may sit in private helpers of their own: read where they are called
+                objflat.inline_worker(tree, 'to_jigg_xml', lambda c_, cls_={d_.name for d_ in tree.body if isinstance(d_, ast.ClassDef)}: isinstance(c_.func, ast.Name) and c_.func.id in cls_)
+                objflat.inline_worker(tree, 'to_jigg_xml', lambda c_: ast.unparse(c_.func) in ('etree.SubElement', 'etree.Element', 'SubElement', 'Element') and c_.args
+                                      and isinstance(c_.args[-1], ast.Constant) and c_.args[-1].value == 'token')
             objflat.inline_skeletons(tree)
             objflat.nest_workers(tree)
             objflat._link(tree)
